@@ -109,21 +109,31 @@ def check(ck):
     fi = prog.func(SRV, POOLED + ".__init__")
     gi = cfg_of(fi)
     di = dominators(gi)
+    from vlib.flow import reachable_avoiding
     mk = [(n, c) for (n, c) in q.call_sites(prog, fi, lambda r, c: r == "class:threadpool.ThreadPool")]
-    st = [n for n in gi.live_nodes() for c in node_calls(n) if call_name(c) == "start" and dump(c.func.value) == "thread_pool"]
-    store = [n for n in gi.live_nodes() if n.kind == "stmt" and isinstance(n.ast, ast.Assign) and dump(n.ast.targets[0]) == "self.__request_pool"]
-    basei = [n for n in gi.live_nodes() for c in node_calls(n) if dump(c.func) == "SimpleJSONRPCServer.__init__"]
-    if not (mk and st and store and basei):
-        raise AnalysisError("anchor vanished: default pool creation / start / store / base constructor in PooledJSONRPCServer.__init__")
+    stores = [n for n in gi.live_nodes() if n.kind == "stmt" and isinstance(n.ast, ast.Assign) and dump(n.ast.targets[0]) == "self.__request_pool"]
+    basei = [n for n in gi.live_nodes() for c in node_calls(n) if dump(c.func) == "SimpleJSONRPCServer.__init__" or
+             (call_name(c) == "__init__" and "super" in dump(c.func))]
+    if not (mk and stores and basei):
+        raise AnalysisError("anchor vanished: default pool creation / store / base constructor in PooledJSONRPCServer.__init__")
     gd = [gi.nodes[i] for i in di[mk[0][0].id] if gi.nodes[i].kind == "branch"]
-    ck.require(len(gd) == 1 and dump(gd[0].test) == "thread_pool is None" and gd[0].polarity, "C12.5", "%s: default pool only when none is given" % q.fn(fi),
+    okg = len(gd) == 1 and ((dump(gd[0].test) == "thread_pool is None" and gd[0].polarity) or (dump(gd[0].test) == "thread_pool is not None" and not gd[0].polarity))
+    ck.require(okg, "C12.5", "%s: default pool only when none is given" % q.fn(fi),
                "`if thread_pool is None`", "the default pool is created under %s" % [dump(b.test) for b in gd], q.loc(fi, mk[0][0]))
-    ck.require(mk[0][0].id in di[st[0].id] and any(gi.nodes[i] is gd[0] for i in di[st[0].id]) if gd else False, "C12.5",
-               "%s: default pool started" % q.fn(fi), "thread_pool.start() after creation", "the default pool is not started", q.loc(fi, st[0]))
-    t = prov.origin(gi, store[0], store[0].ast.value)
-    ck.require(("param", "thread_pool") in prov.alts(t) and store[0].id in di[basei[0].id], "C12.5", "%s: pool stored before the base constructor" % q.fn(fi),
-               "self.__request_pool set first", "the request pool is stored after the server may already accept connections (or is not the given pool)",
-               q.loc(fi, store[0]))
+    pool_var = mk[0][0].ast.targets[0].id if isinstance(mk[0][0].ast, ast.Assign) and isinstance(mk[0][0].ast.targets[0], ast.Name) else None
+    st = [n for n in gi.live_nodes() for c in node_calls(n) if call_name(c) == "start" and dump(c.func.value) == pool_var and mk[0][0].id in di[n.id]]
+    ck.require(bool(st), "C12.5", "%s: default pool started" % q.fn(fi), "<pool>.start() after creation", "the default pool is not started", q.loc(fi, mk[0][0]))
+    okst = True
+    for s_ in stores:
+        t = prov.origin(gi, s_, s_.ast.value)
+        for a in prov.alts(t):
+            if not (a == ("param", "thread_pool") or (a[0] == "call" and prov.show(a[1]).endswith("ThreadPool"))):
+                okst = False
+    reach = reachable_avoiding(gi, gi.entry.id, set(s_.id for s_ in stores), lambda l: l != "exc")
+    ck.require(okst and basei[0].id not in reach, "C12.5", "%s: pool stored before the base constructor" % q.fn(fi),
+               "self.__request_pool set (given pool or started default) on every path to the base constructor",
+               "the request pool is stored after the server may already accept connections (or is not the given / default pool)",
+               q.loc(fi, stores[0]))
     ck.floor("C12.5", 6)
 
     # ---- C12.6 request-pool accounting (no lost executions): shared with C10.7 / C10.7b ---------------------------
